@@ -342,6 +342,11 @@ class ProxyV:
         return f"proxy({self.d!r})"
 
 
+class UserStr(str):
+    """a string object of the caller's own (built at run time, read from a file, a literal of another module): equal to, but not the
+    same object as, any string constant of the tree.  `is` tells them apart, `==` does not."""
+
+
 class IterV:
     def __init__(self, items):
         self.items, self.pos = list(items), 0
@@ -1932,6 +1937,8 @@ class Interp:
         if isinstance(a, str) and isinstance(b, str):
             if a != b:
                 return False
+            if isinstance(a, UserStr) or isinstance(b, UserStr):
+                return False  # an equal string of the caller's own is another object
             return True  # interned literals: the library only ever compares constants this way
         if isinstance(a, Opaque) or isinstance(b, Opaque):
             if isinstance(a, _ATOMS) and not isinstance(a, Opaque) or isinstance(b, _ATOMS) and not isinstance(b, Opaque):
